@@ -582,6 +582,13 @@ class TypeTag:
     def __deepcopy__(self, memo):
         return self
 
+    @property
+    def dtype(self):
+        # lets concrete numpy arrays of the interpreted program take the tag as a dtype argument
+        if self.py in (int, float, bool, complex, str, object):
+            return __import__("numpy").dtype(self.py)
+        raise AttributeError("dtype")
+
     def _pyvc_isinstance(self, x):
         nm = self.__name__
         if isinstance(x, (Arr,)):
@@ -653,6 +660,9 @@ class Cat:
 
     def __init__(self, parts):
         self.parts = parts
+
+    def sym_unop(self, it, op):
+        return Cat([it.unop(op, x) for x in self.parts])
 
     def sym_binop(self, it, op, a, b):
         if isinstance(a, Cat) and isinstance(b, Cat):
